@@ -1,1 +1,8 @@
 import PytezosModel.Props.C01
+#print axioms C01.exec_refines_spec
+#print axioms C01.run_ok
+#print axioms C01.run_failwith
+#print axioms C01.guarded_is_reference
+#print axioms C01.run_eq_reference
+#print axioms C01.dip_n_spec
+#print axioms C01.map_empty_counterexample
